@@ -10,7 +10,7 @@ from .. import e2
 from .. import model as M
 from ..codec import src, unsrc
 from ..common import shard_items
-from ..runner import Acc, parallel
+from ..runner import Acc, parallel, parallel_fresh
 from ..terms import show, size, try_build, unique_subterms
 from ..universe import universe
 
@@ -121,7 +121,11 @@ def second_instances():
             pass
 
 
-def worker(shard, nshards, tier, seed):
+def _has_regex(t):
+    return "'regex'" in repr(t)
+
+
+def worker(shard, nshards, tier, seed, mode="shard"):
     acc = Acc()
     b = BOUNDS[tier]
     rng = e2.Scripted(seed)
@@ -131,6 +135,13 @@ def worker(shard, nshards, tier, seed):
         # ... and once more (D = 1) after second instances of the generator classes were used;
         # last in the shard, so that everything above runs in a process that never had any
         mine += [(i, t, True) for i, t, _ in mine]
+        if mode == "one-process":
+            # every schema with a pattern in it, through the one module-level generator of ONE
+            # process, forwards and backwards, twice: what the regex generator keeps between
+            # generate() calls meets the parse tree of a different pattern
+            rx = [(i, t, False) for i, t in enumerate(terms_for(tier)) if _has_regex(t)]
+            mine = (rx + rx[::-1]) * 2
+            b = dict(b, D=1, full_cap=300)
         for i, t, second in mine:
             if second:
                 second_instances()
@@ -169,6 +180,10 @@ def worker(shard, nshards, tier, seed):
 def run(tier, seed):
     terms_for(tier)
     acc = parallel(worker, tier, seed, nshards=128, warm_pass=True)
+    one = parallel_fresh(worker, tier, seed, nshards=1, extra=("one-process",))
+    one.n = type(one.n)({"one_process:" + k: c for k, c in one.n.items() if k != "max_choice_points"})
+    one.outcomes = set()
+    acc.merge(one)
     b = BOUNDS[tier]
     cov = {
         "states": acc.n["schemas"],
@@ -182,6 +197,7 @@ def run(tier, seed):
         "exhaustive": not acc.caps,
         "bounds": dict(b, tier=tier, max_choice_points_seen=acc.n["max_choice_points"]),
         "schemas_again_after_second_generator_instances": acc.n["schemas_after_second_instances"],
+        "one_process_pass": {"pattern_schemas_forwards_and_backwards_twice": acc.n["one_process:schemas"]},
     }
     return acc, cov, ["RNG answers per draw: both ends, their neighbours, the middle, one seeded "
                       "interior point (choice over <= 4 items: every item)",
